@@ -6,8 +6,10 @@ import (
 	"context"
 	"errors"
 	"fmt"
+	badger "github.com/dgraph-io/badger/v2"
 	"math"
 	"math/rand"
+	"os"
 	"sort"
 	"testing"
 
@@ -23,18 +25,121 @@ import (
 // would receive them; it never commits, so Create returns its error and no
 // dataset (hence no partition raft group) is created.
 type scriptedGroup struct {
-	last []byte
+	last    []byte
+	apply   bool // commit and apply every proposal at once (what a one-member membership group does)
+	process raft.ProcessFn
 }
 
 var errScripted = errors.New("scripted group: proposal captured")
 
-func (g *scriptedGroup) RegisterProcessFn(raft.ProcessFn) error         { return nil }
+func (g *scriptedGroup) RegisterProcessFn(f raft.ProcessFn) error       { g.process = f; return nil }
 func (g *scriptedGroup) RegisterProcessSnapshotFn(raft.ProcessFn) error { return nil }
 func (g *scriptedGroup) RegisterSnapshotFn(raft.SnapshotFn) error       { return nil }
 func (g *scriptedGroup) LeaderId() uint64                               { return 1 }
 func (g *scriptedGroup) Propose(ctx context.Context, data []byte) error {
 	g.last = append([]byte(nil), data...)
+	if g.apply && g.process != nil {
+		return g.process(data)
+	}
 	return errScripted
+}
+
+// appliedCreates: as a running node does, every create is committed and applied before the next one is placed (the
+// local node is not a member, so applying loads no raft group). Whatever applying a create does, consecutive creates
+// must still be placed independently of each other and of themselves.
+func appliedCreates(rec *mon.Recorder, N int) {
+	conn, err := cluster.NewConn(999983, "127.0.0.1:1", "")
+	if err != nil {
+		return
+	}
+	for i := 1; i <= N; i++ {
+		conn.AddNode(uint64(1000+i*7), fmt.Sprintf("127.0.0.1:%d", 2000+i))
+	}
+	alloc := storage.NewAllocator(conn)
+	g := &scriptedGroup{apply: true}
+	dir, err := os.MkdirTemp(os.Getenv("VERIF_SCRATCH"), "c16-applied-")
+	if err != nil {
+		rec.Inconclusive("applied creates: " + err.Error())
+		return
+	}
+	defer os.RemoveAll(dir)
+	opts := badger.LSMOnlyOptions(dir).WithSyncWrites(false)
+	opts.Logger = nil
+	db, err := badger.Open(opts)
+	if err != nil {
+		rec.Inconclusive("applied creates: " + err.Error())
+		return
+	}
+	defer db.Close()
+	dm, err := storage.NewDatasetManager(g, db, nil, conn, alloc)
+	if err != nil {
+		rec.Inconclusive(fmt.Sprintf("applied creates N=%d: %v", N, err))
+		return
+	}
+	T := rec.N(200, 1200)
+	for _, cfg := range [][2]int{{1, 2}, {2, 2}, {3, 8}} {
+		R, P := cfg[0], cfg[1]
+		want := R
+		if N < R {
+			want = N
+		}
+		C := binom(N, want)
+		if C <= 1 {
+			continue
+		}
+		samePair, sameAll, sameAsPrevious := 0, 0, 0
+		prev := ""
+		for call := 0; call < T; call++ {
+			g.last = nil
+			if _, err := dm.Create(context.Background(), &pb.Dataset{Dimension: 4, PartitionCount: uint32(P), ReplicationFactor: uint32(R)}); err != nil || g.last == nil {
+				rec.Violation("create:unexpected-result:applied", fmt.Sprintf("N=%d R=%d P=%d: err=%v", N, R, P, err), nil)
+				return
+			}
+			pl, err := placement(g)
+			if err != nil || len(pl) != P {
+				rec.Violation("create:proposal-malformed", fmt.Sprintf("N=%d R=%d P=%d: %v", N, R, P, err), nil)
+				return
+			}
+			keys := make([]string, P)
+			for i, ids := range pl {
+				keys[i] = setKey(ids)
+			}
+			all := true
+			for i := 1; i < P; i++ {
+				if keys[i] != keys[0] {
+					all = false
+				}
+			}
+			if all {
+				sameAll++
+			}
+			if keys[0] == keys[1] {
+				samePair++
+			}
+			whole := fmt.Sprint(keys)
+			if whole == prev {
+				sameAsPrevious++
+			}
+			prev = whole
+			rec.Count("creates_checked", 1)
+			rec.Count("applied_creates_checked", 1)
+		}
+		desc := map[string]interface{}{"N": N, "R": R, "P": P, "calls": T, "seed": rec.Seed(), "applied": true}
+		band := math.Sqrt(math.Log(2/1e-10) / (2 * float64(T)))
+		if rate := float64(samePair) / float64(T); math.Abs(rate-1/C) > band {
+			rec.Violation("independence:pair-coincidence-rate:creates-applied-in-between", fmt.Sprintf("N=%d R=%d P=%d: partitions 0 and 1 coincide in %.3f of creates, expected %.3f +- %.3f", N, R, P, rate, 1/C, band), desc)
+		}
+		if math.Pow(C, float64(P-1)) >= 1e12 && sameAll > 0 {
+			rec.Violation("independence:all-partitions-identical:creates-applied-in-between", fmt.Sprintf("N=%d R=%d P=%d: %d of %d creates placed every partition on the same node set", N, R, P, sameAll, T), desc)
+		}
+		// a create that repeats the previous one's whole placement has probability C^-P
+		if p := math.Pow(C, -float64(P)); float64(T)*p < 1e-9 && sameAsPrevious > 0 {
+			rec.Violation("independence:create-repeats-the-previous-placement", fmt.Sprintf("N=%d R=%d P=%d: %d of %d creates placed their partitions exactly as the create before (probability %.1e each under independence)", N, R, P, sameAsPrevious, T, p), desc)
+		} else if rate := float64(sameAsPrevious) / float64(T); rate-p > band {
+			rec.Violation("independence:create-repeats-the-previous-placement", fmt.Sprintf("N=%d R=%d P=%d: %.3f of creates repeat the placement of the create before, expected %.3f +- %.3f", N, R, P, rate, p, band), desc)
+		}
+		rec.Count("independence_tests", 1)
+	}
 }
 
 func placement(g *scriptedGroup) ([][]uint64, error) {
@@ -215,6 +320,7 @@ func TestC16(t *testing.T) {
 				}
 			}
 		}
+		appliedCreates(rec, N)
 		// ---- membership history: nodes leave and join between creates (some were
 		// dialled before they left, some never); every placement uses exactly the
 		// members of the moment
